@@ -89,6 +89,9 @@ type runner struct {
 	dropped [2]bool
 	hsSent  bool
 	sentA   bool // a 1-RTT packet was sent
+	bs, br  int64 // bytes sent / received so far (what the amplification limit compares)
+	valid   bool  // the peer's address is validated (amplification limit off)
+	mtuPNs  map[int64]bool // application-data packet numbers that were Path MTU probes
 	sent    [3][]int64 // packet numbers sent per space (since creation / Retry)
 	peer    [3][]int64 // those the simulated peer received
 	stale   []ackSpec
@@ -145,6 +148,9 @@ func (rn *runner) create(client bool, pn int64, val, ecn, ql, u bool, pl int64, 
 	rn.dropped = [2]bool{}
 	rn.hsSent = false
 	rn.sentA = false
+	rn.bs, rn.br = 0, 0
+	rn.valid = client || val
+	rn.mtuPNs = map[int64]bool{}
 	rn.sent = [3][]int64{}
 	rn.peer = [3][]int64{}
 	rn.stale = nil
@@ -300,7 +306,12 @@ func (rn *runner) genSend(r *vh.Rand) string {
 	if rn.style == 3 {
 		lo = 1200
 	}
-	return fmt.Sprintf("send %s %d %d %d 0 0 %s", l, rn.now, la, r.Range(lo, 1452), rn.genFrames(r, 1+r.Pick(60, 30, 10), false))
+	size := r.Range(lo, 1452)
+	// an unvalidated server often fills its amplification budget exactly (bytesSent == 3 * bytesReceived)
+	if room := 3*rn.br - rn.bs; !rn.valid && room >= 20 && room <= 1452 && r.Chance(45) {
+		size = room
+	}
+	return fmt.Sprintf("send %s %d %d %d 0 0 %s", l, rn.now, la, size, rn.genFrames(r, 1+r.Pick(60, 30, 10), false))
 }
 
 func (rn *runner) genAck(r *vh.Rand) string {
@@ -408,7 +419,11 @@ func (rn *runner) genInit(r *vh.Rand) string {
 			base = pn + r.Range(-1, 2)
 		}
 	}
-	return fmt.Sprintf("init client=%d pn=%d val=%d ecn=%d ql=%d u=%d pl=%d pls=%s base=%d mad=%d rnd=%d", b2i(client), pn, r.Intn(2), r.Intn(2), r.Intn(2), u, pl, pls, base,
+	val := r.Intn(2)
+	if rn.style == 2 && r.Chance(80) {
+		val = 0
+	}
+	return fmt.Sprintf("init client=%d pn=%d val=%d ecn=%d ql=%d u=%d pl=%d pls=%s base=%d mad=%d rnd=%d", b2i(client), pn, val, r.Intn(2), r.Intn(2), u, pl, pls, base,
 		[]int64{0, 25_000_000, 1_000_000, 200_000_000}[r.Pick(10, 70, 10, 10)], r.Pick(40, 35, 25))
 }
 
@@ -436,16 +451,29 @@ func (rn *runner) GenOp(r *vh.Rand, i int) string {
 		rn.draining++
 		rn.now += 1_000_000
 		switch st {
-		case 1, 2, 3:
-			l := []string{"I", "H", "A"}[st-1]
-			if (st <= 2 && rn.dropped[st-1]) || len(rn.sent[st-1]) == 0 {
+		case 1: // long silence, then one fresh application-data packet (gives the final ACK a small RTT sample)
+			rn.now += 60_000_000_000
+			return fmt.Sprintf("send A %d -1 40 0 0 %s", rn.now, rn.genFrames(r, 1, true))
+		case 2, 3, 4:
+			// acknowledge everything that is outstanding — except the Path MTU probes, which the peer never got:
+			// everything sent a minute ago is long overdue, so loss detection has to report them lost
+			rn.now += 20_000_000
+			sp := st - 2
+			l := []string{"I", "H", "A"}[sp]
+			var pns []int64
+			for _, p := range rn.sent[sp] {
+				if sp != 2 || !rn.mtuPNs[p] {
+					pns = append(pns, p)
+				}
+			}
+			if (sp <= 1 && rn.dropped[sp]) || len(pns) == 0 {
 				return fmt.Sprintf("mode %d", rn.now)
 			}
-			return fmt.Sprintf("ack %s %d 0 0,0,0 r=%s", l, rn.now, rangesOf(rn.sent[st-1], 1<<30))
-		case 4:
+			return fmt.Sprintf("ack %s %d 0 0,0,0 r=%s", l, rn.now, rangesOf(pns, 1<<30))
+		case 5:
 			rn.now += 2_000_000_000
 			return fmt.Sprintf("timeout %d", rn.now)
-		case 5:
+		case 6:
 			return fmt.Sprintf("mode %d", rn.now)
 		}
 		return ""
@@ -489,8 +517,15 @@ func (rn *runner) GenOp(r *vh.Rand, i int) string {
 	case 6:
 		return fmt.Sprintf("migrate %d %d", rn.now, r.Range(1200, 1452))
 	case 7:
-		return fmt.Sprintf("rcvbytes %d %d", r.Range(1, 1500), rn.now)
+		n := r.Range(1, 1500)
+		if !rn.valid && r.Chance(50) {
+			n = r.Range(40, 480) // small datagrams: the budget is often used up by the next packet or two
+		}
+		return fmt.Sprintf("rcvbytes %d %d", n, rn.now)
 	case 8:
+		if rn.style == 2 {
+			return fmt.Sprintf("rcvpkt %s %d", lvlNames[r.Pick(45, 10, 5, 40)], rn.now)
+		}
 		return fmt.Sprintf("rcvpkt %s %d", lvlNames[r.Pick(30, 40, 5, 25)], rn.now)
 	case 9:
 		return fmt.Sprintf("mode %d", rn.now)
@@ -649,6 +684,10 @@ func (rn *runner) Exec(op string) string {
 		ecn := rn.h.ECNMode(f[1] == "A")
 		rn.h.SentPacket(now, pn, protocol.PacketNumber(vh.Atoi64(f[3])), sframes, frames, lvl, ecn, protocol.ByteCount(vh.Atoi64(f[4])), f[5] == "1", probe)
 		rn.sent[sp] = append(rn.sent[sp], int64(pn))
+		rn.bs += vh.Atoi64(f[4])
+		if sp == 2 && f[5] == "1" {
+			rn.mtuPNs[int64(pn)] = true
+		}
 		// the simulated peer receives most packets (the case seed decides, so that replays agree)
 		if (uint64(pn)*0x9e3779b97f4a7c15+uint64(now))%100 < 85 {
 			rn.peer[sp] = append(rn.peer[sp], int64(pn))
@@ -712,6 +751,7 @@ func (rn *runner) Exec(op string) string {
 		}
 		rn.h.ResetForRetry(monotime.Time(vh.Atoi64(f[1])))
 		rn.sent[0], rn.sent[2] = nil, nil
+		rn.mtuPNs = map[int64]bool{}
 		rn.peer[0], rn.peer[2] = nil, nil
 		rn.stale = nil
 		res = "ok " + rn.events()
@@ -720,9 +760,13 @@ func (rn *runner) Exec(op string) string {
 		res = "ok " + rn.events()
 	case "rcvbytes":
 		rn.h.ReceivedBytes(protocol.ByteCount(vh.Atoi64(f[1])), monotime.Time(vh.Atoi64(f[2])))
+		rn.br += vh.Atoi64(f[1])
 		res = "ok"
 	case "rcvpkt":
 		rn.h.ReceivedPacket(lvlOf(f[1]), monotime.Time(vh.Atoi64(f[2])))
+		if f[1] == "H" {
+			rn.valid = true
+		}
 		res = "ok"
 	case "mode":
 		now := monotime.Time(vh.Atoi64(f[1]))
